@@ -374,3 +374,219 @@ func cfgTaint(p *core.Prog, rep *core.Report) {
 	rep.Tables = append(rep.Tables, "(*DB).Backup tests Options.FileIOType == MemoryMap to shrink mmap files before copying (C20)")
 	rep.Check(len(bad) == 0, "CF1", "config-only-through-dispatchers", fmt.Sprintf("all %d loads of IndexType/ShardNum/FileIOType flow into constructors only", n), "", strings.Join(bad, "; "), true)
 }
+
+// hp2Conservation: the merged iterator owns one cursor per shard for its whole life. Methods move cursors between two
+// containers (the heap and the parked list of exhausted cursors). A cursor that is taken out of a container - popped
+// from the heap, or read from a container field that the method then replaces - and put into neither is lost: the next
+// Rewind / Seek no longer visits that shard and the enumeration is silently incomplete.
+func hp2Conservation(p *core.Prog, rep *core.Report) {
+	rep.Rule("HP2", "cursor conservation: in every method of the merged index iterator (except the one that closes the cursors), a shard cursor popped from the heap, or read in a loop from a container field the method replaces, is put back on every path - heap.Push, or append into a slice that is stored to a field - before the method returns / the loop moves to the next element")
+	iterIface := p.R.IterIface
+	isCursor := func(t types.Type) bool {
+		n, ok := t.(*types.Named)
+		return ok && n == iterIface
+	}
+	ms := p.SSA.MethodSets.MethodSet(types.NewPointer(p.R.IndexIterator))
+	nSrc := 0
+	for i := 0; i < ms.Len(); i++ {
+		fn := p.SSA.MethodValue(ms.At(i))
+		if fn == nil || fn.Blocks == nil {
+			continue
+		}
+		closes := false
+		replaced := map[*types.Var]bool{} // container fields stored with something that is not an append to themselves
+		for _, b := range fn.Blocks {
+			for _, in := range b.Instrs {
+				if ci, ok := in.(ssa.CallInstruction); ok {
+					c := ci.Common()
+					if c.IsInvoke() && isCursor(c.Value.Type()) && c.Method.Name() == "close" {
+						closes = true
+					}
+				}
+				if f, _, val := core.StoreField(in); f != nil {
+					if sl, ok := f.Type().Underlying().(*types.Slice); ok && isCursor(sl.Elem()) {
+						selfAppend := false
+						if c, ok := val.(*ssa.Call); ok {
+							if bi, ok := c.Call.Value.(*ssa.Builtin); ok && bi.Name() == "append" && len(c.Call.Args) > 0 {
+								if core.LastField(c.Call.Args[0]) == f {
+									selfAppend = true
+								}
+							}
+						}
+						if !selfAppend {
+							replaced[f] = true
+						}
+					}
+				}
+			}
+		}
+		if closes {
+			continue
+		}
+		// flowsToField: the slice value reaches a store into a struct field (through phis)
+		var flowsToField func(v ssa.Value, seen map[ssa.Value]bool) bool
+		flowsToField = func(v ssa.Value, seen map[ssa.Value]bool) bool {
+			if seen[v] {
+				return false
+			}
+			seen[v] = true
+			for _, r := range *v.Referrers() {
+				switch t := r.(type) {
+				case *ssa.Store:
+					if t.Val == v {
+						if f, _ := core.FieldOfAddr(t.Addr); f != nil {
+							return true
+						}
+					}
+				case *ssa.Phi:
+					if flowsToField(t, seen) {
+						return true
+					}
+				case *ssa.Call:
+					// append(v, ...) keeps the elements of v
+					if bi, ok := t.Call.Value.(*ssa.Builtin); ok && bi.Name() == "append" && len(t.Call.Args) > 0 && t.Call.Args[0] == v {
+						if flowsToField(t, seen) {
+							return true
+						}
+					}
+				case *ssa.Slice:
+					if flowsToField(t, seen) {
+						return true
+					}
+				}
+			}
+			return false
+		}
+		// absorbing instructions for cursor value v
+		absorbs := func(v ssa.Value) map[*ssa.BasicBlock]int {
+			out := map[*ssa.BasicBlock]int{}
+			vals := []ssa.Value{v}
+			for k := 0; k < len(vals); k++ {
+				for _, r := range *vals[k].Referrers() {
+					switch t := r.(type) {
+					case *ssa.MakeInterface:
+						vals = append(vals, t)
+					case *ssa.ChangeInterface:
+						vals = append(vals, t)
+					case *ssa.Call:
+						if f := t.Common().StaticCallee(); f != nil && f.Package() != nil && f.Package().Pkg.Path() == "container/heap" && f.Name() == "Push" {
+							out[t.Block()] = indexIn(t)
+						}
+					case *ssa.Store:
+						// element of a varargs array handed to append whose result is kept in a field
+						ia, ok := t.Addr.(*ssa.IndexAddr)
+						if !ok || t.Val != vals[k] {
+							continue
+						}
+						al, ok := ia.X.(*ssa.Alloc)
+						if !ok {
+							continue
+						}
+						for _, ar := range *al.Referrers() {
+							sl, ok := ar.(*ssa.Slice)
+							if !ok {
+								continue
+							}
+							for _, sr := range *sl.Referrers() {
+								c, ok := sr.(*ssa.Call)
+								if !ok {
+									continue
+								}
+								if bi, ok := c.Call.Value.(*ssa.Builtin); ok && bi.Name() == "append" && flowsToField(c, map[ssa.Value]bool{}) {
+									out[c.Block()] = indexIn(c)
+								}
+							}
+						}
+					}
+				}
+			}
+			return out
+		}
+		type source struct {
+			v    ssa.Value
+			at   ssa.Instruction
+			loop bool
+			what string
+		}
+		var srcs []source
+		for _, b := range fn.Blocks {
+			for _, in := range b.Instrs {
+				switch t := in.(type) {
+				case *ssa.TypeAssert:
+					if !isCursor(t.AssertedType) {
+						continue
+					}
+					if c, ok := t.X.(*ssa.Call); ok {
+						if f := c.Common().StaticCallee(); f != nil && f.Package() != nil && f.Package().Pkg.Path() == "container/heap" && (f.Name() == "Pop" || f.Name() == "Remove") {
+							srcs = append(srcs, source{t, t, false, "cursor popped from the heap"})
+						}
+					}
+				case *ssa.UnOp:
+					if t.Op != token.MUL || !isCursor(t.Type()) {
+						continue
+					}
+					ia, ok := t.X.(*ssa.IndexAddr)
+					if !ok {
+						continue
+					}
+					for _, o := range core.Origins(ia.X) {
+						if f, _ := core.LoadedField(o); f != nil && replaced[f] {
+							srcs = append(srcs, source{t, t, true, "cursor read from " + f.Name() + ", which this method replaces"})
+						} else if s, ok := o.(*ssa.Slice); ok {
+							if f, _ := core.LoadedField(s.X); f != nil && replaced[f] {
+								srcs = append(srcs, source{t, t, true, "cursor read from " + f.Name() + ", which this method replaces"})
+							}
+						}
+					}
+				}
+			}
+		}
+		for _, s := range srcs {
+			nSrc++
+			abs := absorbs(s.v)
+			def := s.at.Block()
+			lost := ""
+			if _, ok := abs[def]; !ok || abs[def] < indexIn(s.at) {
+				seen := map[*ssa.BasicBlock]bool{}
+				var dfs func(b *ssa.BasicBlock)
+				dfs = func(b *ssa.BasicBlock) {
+					if lost != "" {
+						return
+					}
+					for _, su := range b.Succs {
+						if s.loop && (su == def || su.Dominates(def)) {
+							lost = "the loop moves on at " + p.InstrPos(b.Instrs[len(b.Instrs)-1])
+							return
+						}
+						if seen[su] {
+							continue
+						}
+						seen[su] = true
+						if _, ok := abs[su]; ok {
+							continue
+						}
+						if r, ok := su.Instrs[len(su.Instrs)-1].(*ssa.Return); ok {
+							lost = "the method returns at " + p.InstrPos(r)
+							return
+						}
+						dfs(su)
+					}
+				}
+				dfs(def)
+			}
+			rep.Check(lost == "", "HP2", fmt.Sprintf("cursor-conserved:%s@%s", core.FuncKey(fn), s.what), "a shard cursor taken out of a container is put back on every path", p.InstrPos(s.at), s.what+" is in neither container when "+lost+": the next Rewind / Seek skips that shard", true)
+		}
+	}
+	if nSrc < 3 {
+		rep.Unk("VAC", "HP2", "expected >= 3 cursor sources (Next's pop, Seek's and Rewind's loops)", "", fmt.Sprintf("found %d", nSrc))
+	}
+}
+
+func indexIn(in ssa.Instruction) int {
+	for i, x := range in.Block().Instrs {
+		if x == in {
+			return i
+		}
+	}
+	return -1
+}
